@@ -57,6 +57,7 @@ func VerifSetTreeShakingObserver(f func(VerifShakeDump)) {
 }
 
 func verifObserveTreeShaking(c *linkerContext) {
+	verifObservePartDeps(c) // see verif_observe_partdeps.go
 	verifShakeMutex.Lock()
 	obs := verifShakeObserver
 	verifShakeMutex.Unlock()
